@@ -439,6 +439,13 @@ fn run_lane(
         })
         .collect();
     let watchdog = Duration::from_secs(check.watchdog_s(ctx));
+    // Once several hangs have been confirmed the verdict of the run is settled; the remaining cases
+    // are still run, but a case that exceeds a much shorter budget is then cut off and only counted
+    // (inconclusive), so that a tree that hangs on hundreds of cases does not take hours to judge.
+    const CONFIRMED_HANGS_FOR_SHORT_BUDGET: u64 = 6;
+    let short_budget = Duration::from_secs(check.watchdog_s(ctx).min(2));
+    let confirmed_hangs = Arc::new(std::sync::atomic::AtomicU64::new(0));
+    let wd_hangs = confirmed_hangs.clone();
     // watchdog thread
     let wd_states = states.clone();
     let wd_stop = Arc::new(Mutex::new(false));
@@ -457,7 +464,8 @@ fn run_lane(
                     (Some(now), Some(c0)) => now - c0,
                     _ => 0.0,
                 };
-                let over = cpu_used > watchdog.as_secs_f64() || t0.elapsed() > watchdog * 20;
+                let budget = if wd_hangs.load(std::sync::atomic::Ordering::Relaxed) >= CONFIRMED_HANGS_FOR_SHORT_BUDGET { short_budget } else { watchdog };
+                let over = cpu_used > budget.as_secs_f64() || t0.elapsed() > budget * 20;
                 if over && !s.killed_by_watchdog {
                     s.killed_by_watchdog = true;
                     let _ = Command::new("kill").arg("-9").arg(pid.to_string()).status();
@@ -474,6 +482,7 @@ fn run_lane(
             let exe = exe.clone();
             let tier = ctx.tier;
             let seed = ctx.seed;
+            let confirmed_hangs = confirmed_hangs.clone();
             sc.spawn(move || {
                 let mut start = 0u64;
                 loop {
@@ -538,6 +547,15 @@ fn run_lane(
                                 agg.lock().unwrap().harness_errors.push("watchdog fired outside a case".into());
                                 break;
                             };
+                            if confirmed_hangs.load(std::sync::atomic::Ordering::Relaxed) >= CONFIRMED_HANGS_FOR_SHORT_BUDGET {
+                                let mut a = agg.lock().unwrap();
+                                *a.inconclusive.entry(format!("cut off after {}s of CPU time (short budget: {} hangs already confirmed in this run)", short_budget.as_secs(), CONFIRMED_HANGS_FOR_SHORT_BUDGET)).or_insert(0) += 1;
+                                start = i + 1;
+                                if start >= n_cases {
+                                    break;
+                                }
+                                continue;
+                            }
                             // re-run in isolation twice
                             let mut reproduced = 0;
                             for _ in 0..2 {
@@ -550,6 +568,7 @@ fn run_lane(
                             }
                             let mut a = agg.lock().unwrap();
                             if reproduced == 2 && hang_is_violation {
+                                confirmed_hangs.fetch_add(1, std::sync::atomic::Ordering::Relaxed);
                                 a.violations.push(json!({
                                     "idx": i, "lane": lane,
                                     "sig": "hang:watchdog",
